@@ -130,6 +130,42 @@ theorem size_bound_log {W S : Nat} (hWS : 1 ≤ W ∧ 2 * W ≤ S) (l : List Ste
   simp only [Nat.cast_pow, Nat.cast_ofNat, logb_two_pow] at this
   linarith
 
+
+/-- the same steps on the Impl model (`encodeCP`, with faults and errors) -/
+def encodeAllImpl (W S : Nat) : Coder → List Step → Except EncErr Coder
+  | x, [] => .ok x
+  | x, e :: l =>
+    match encodeCP (e.cfg W S) x e.cum e.p with
+    | .ok y => encodeAllImpl W S y l
+    | .error err => .error err
+
+/-- the Impl model never fails on valid steps and computes exactly the arithmetic fold the size
+    bounds are stated for -/
+theorem encodeAllImpl_eq {W S : Nat} (l : List Step) (hl : ∀ e ∈ l, e.OK W S) (x : Coder)
+    (hx : Inv { W := W, S := S, P := 1, B := 1 } x) (hcap : x.cap = none) :
+    encodeAllImpl W S x l = .ok (encodeAll W S x l) := by
+  induction l generalizing x with
+  | nil => rfl
+  | cons e l ih =>
+    obtain ⟨hv, hcp⟩ := hl e List.mem_cons_self
+    have hxe : Inv (e.cfg W S) x := inv_cfg rfl rfl hx
+    simp only [encodeAllImpl, encodeAll, encodeCP_spec hv hxe hcap hcp]
+    apply ih (fun e' he' => hl e' (List.mem_cons_of_mem _ he'))
+    · exact inv_cfg rfl rfl (encArith_inv hv hxe hcp)
+    · simp only [encArith, afterFlush]; split <;> exact hcap
+
+/-- **C12 on the Impl model**: `encode_symbol` for each step on `AnsCoder::new()` succeeds and the
+    resulting coder satisfies the logarithmic size bound -/
+theorem size_bound_log_impl {W S : Nat} (hWS : 1 ≤ W ∧ 2 * W ≤ S) (l : List Step) (hl : ∀ e ∈ l, e.OK W S) :
+    ∃ y, encodeAllImpl W S Ans.empty l = .ok y ∧
+      ((numBits { W := W, S := S, P := 1, B := 1 } y : ℕ) : ℝ)
+        ≤ info (l.map (·.summary W S)) + rounding (l.map (·.summary W S)) + S ∧
+      numWords { W := W, S := S, P := 1, B := 1 } y ≤ l.length + (S + W - 1) / W := by
+  have hempty : Inv { W := W, S := S, P := 1, B := 1 } Ans.empty :=
+    ⟨Nat.two_pow_pos _, by simp [Ans.empty], by simp [Ans.empty]⟩
+  exact ⟨_, encodeAllImpl_eq l hl Ans.empty hempty rfl, size_bound_log hWS l hl,
+    (size_bound_mul hWS l hl).2⟩
+
 /-- default preset (`u32` words, `u64` state, `P = 24`, so `k = 8`): below 0.006 bit per symbol -/
 theorem default_preset_overhead : Real.logb 2 (1 + (2 : ℝ)^(-((64 - 32 - 24 : ℕ) : ℤ))) < 0.006 := by
   have := rounding_default_lt
@@ -146,3 +182,7 @@ end CV.Ans.C12
 #print axioms CV.Ans.C12.size_bound_mul
 #print axioms CV.Ans.C12.size_bound_log
 #print axioms CV.Ans.C12.default_preset_overhead
+#print axioms CV.Ans.C12.inv_cfg
+#print axioms CV.Ans.C12.Q_cfg
+#print axioms CV.Ans.C12.encodeAllImpl_eq
+#print axioms CV.Ans.C12.size_bound_log_impl
